@@ -50,6 +50,9 @@ enum Sut {
     SimplexC(NoiseSimplex<ConstHz>),
     SimplexH(NoiseSimplex<Ctl>),
     Noise(Noise),
+    /// the step signals themselves (frames = frequency / rate)
+    StepC(ConstHz),
+    StepH(Ctl),
 }
 
 impl Sut {
@@ -66,6 +69,38 @@ impl Sut {
             Sut::SimplexC(s) => s.next(),
             Sut::SimplexH(s) => s.next(),
             Sut::Noise(s) => s.next(),
+            Sut::StepC(s) => s.next(),
+            Sut::StepH(s) => s.next(),
+        }
+    }
+    /// `self.clone_from(src)` on the generator itself (the enum's derived Clone would fall back to
+    /// `*self = src.clone()`); false if the two are of different kinds
+    fn clone_from_same(&mut self, src: &Sut) -> bool {
+        match (self, src) {
+            (Sut::PhaseC(a), Sut::PhaseC(b)) => a.clone_from(b),
+            (Sut::PhaseH(a), Sut::PhaseH(b)) => a.clone_from(b),
+            (Sut::SineC(a), Sut::SineC(b)) => a.clone_from(b),
+            (Sut::SineH(a), Sut::SineH(b)) => a.clone_from(b),
+            (Sut::SawC(a), Sut::SawC(b)) => a.clone_from(b),
+            (Sut::SawH(a), Sut::SawH(b)) => a.clone_from(b),
+            (Sut::SquareC(a), Sut::SquareC(b)) => a.clone_from(b),
+            (Sut::SquareH(a), Sut::SquareH(b)) => a.clone_from(b),
+            (Sut::SimplexC(a), Sut::SimplexC(b)) => a.clone_from(b),
+            (Sut::SimplexH(a), Sut::SimplexH(b)) => a.clone_from(b),
+            (Sut::Noise(a), Sut::Noise(b)) => a.clone_from(b),
+            (Sut::StepC(a), Sut::StepC(b)) => a.clone_from(b),
+            (Sut::StepH(a), Sut::StepH(b)) => a.clone_from(b),
+            _ => return false,
+        }
+        true
+    }
+    fn is_exhausted(&self) -> Option<bool> {
+        match self {
+            Sut::StepC(s) => Some(s.is_exhausted()),
+            Sut::StepH(s) => Some(s.is_exhausted()),
+            // (the oscillators built on a step signal do not forward exhaustion — they keep the
+            // default `false` — and no property says they should: not observed)
+            _ => None,
         }
     }
 }
@@ -143,6 +178,7 @@ fn build(m: &Model, ctl_pulls: &mut Option<Pulls>) -> Sut {
             1 => Sut::SineH(hz.sine()),
             2 => Sut::SawH(hz.saw()),
             3 => Sut::SquareH(hz.square()),
+            6 => Sut::StepH(hz),
             _ => Sut::SimplexH(hz.noise_simplex()),
         }
     } else {
@@ -152,6 +188,7 @@ fn build(m: &Model, ctl_pulls: &mut Option<Pulls>) -> Sut {
             1 => Sut::SineC(hz.sine()),
             2 => Sut::SawC(hz.saw()),
             3 => Sut::SquareC(hz.square()),
+            6 => Sut::StepC(hz),
             _ => Sut::SimplexC(hz.noise_simplex()),
         }
     }
@@ -173,6 +210,19 @@ fn check_output(m: &mut Model, got: f64, obs: &mut Observer) -> Result<(), Viola
             want
         );
         check!(obs, (-1.0..=1.0).contains(&got), "osc.range", "noise output {} outside [-1, 1]", got);
+        m.n += 1;
+        return Ok(());
+    }
+    if m.kind == 6 {
+        // the frequency signal used as a signal: frame n is the phase step hz_n / rate
+        let want = m.step(m.n);
+        check!(obs, got == want, "osc.step", "step output {}: got {}, frequency / rate = {}", m.n, got, want);
+        if m.variable && m.n > 0 && m.step(m.n - 1) != want {
+            obs.fault(F_CONTROL_CHANGE);
+        }
+        if m.variable && matches!(m.ctl_len, Some(l) if m.n >= l) {
+            obs.fault(F_CONTROL_EOF);
+        }
         m.n += 1;
         return Ok(());
     }
@@ -298,7 +348,7 @@ impl Scenario for OscScenario {
         ]
     }
     fn rule(&self) -> &'static str {
-        "case = (generator phase/sine/saw/square/simplex/noise, constant frequency or rate.hz(control probe) with schedule constant/stepped/\
+        "case = (generator phase/sine/saw/square/simplex/noise or the frequency signal itself, constant frequency or rate.hz(control probe) with schedule constant/stepped/\
          sweep/bursts/zero-drops/random and optional end, rate from 1e-3 to 1e9, frequency from 0 to 1e300 (f/rate finite), noise seed incl. \
          top of the u64 range, seeded next / next_many / snapshot schedule, final restart check); non-trivial = at least one fault kind \
          fired and at least one frame produced after the first; distinct = hash of (configuration, outputs)"
@@ -325,7 +375,7 @@ impl Scenario for OscScenario {
         }
     }
     fn run(&self, src: &mut Source, obs: &mut Observer) -> Result<(), Violation> {
-        let kind = src.cfg("kind", 0, 5, |r| r.range(0, 5));
+        let kind = src.cfg("kind", 0, 6, |r| if r.chance(1, 12) { 6 } else { r.range(0, 5) });
         let variable = kind != 5 && src.cfg("variable", 0, 1, |r| r.range(0, 1)) == 1;
         let rate = i2f(src.cfg("rate", i64::MIN, i64::MAX, |r| f2i(draw_rate(r))));
         let rate = if rate.is_finite() && rate >= 1e-3 && rate <= 1e9 { rate } else { 44_100.0 };
@@ -363,6 +413,7 @@ impl Scenario for OscScenario {
         let mut ctl_pulls: Option<Pulls> = None;
         let mut sut = build(&m, &mut ctl_pulls);
         let mut twin: Option<(Sut, u64)> = None; // clone and how many lock-steps remain
+        let mut stale: Option<Sut> = None;
         let mut twin_pulls = 0u64;
         let mut history: Vec<f64> = Vec::new();
         let mut produced = 0usize;
@@ -382,7 +433,17 @@ impl Scenario for OscScenario {
                 O_SNAPSHOT => {
                     obs.tick(op.k);
                     obs.fault(F_SNAPSHOT);
-                    twin = Some((sut.clone(), 16));
+                    // a stale earlier snapshot (kept after its lock-step ended) is overwritten in
+                    // place with clone_from; otherwise a fresh clone is taken
+                    twin = match stale.take() {
+                        Some(mut t) => {
+                            if !t.clone_from_same(&sut) {
+                                t = sut.clone();
+                            }
+                            Some((t, 16))
+                        }
+                        None => Some((sut.clone(), 16)),
+                    };
                 }
                 O_NEXT | O_BURST => {
                     obs.tick(op.k);
@@ -393,6 +454,11 @@ impl Scenario for OscScenario {
                         }
                         if m.n > 0 {
                             obs.inflight();
+                        }
+                        if let Some(e) = sut.is_exhausted() {
+                            // the frequency signal ends with its control signal; a constant one never
+                            let want = m.variable && matches!(m.ctl_len, Some(l) if m.n >= l);
+                            check_eq!(obs, e, want, "osc.exhausted", "is_exhausted() before output {} (control length {:?})", m.n, m.ctl_len);
                         }
                         let got = sut.next();
                         produced += 1;
@@ -415,7 +481,7 @@ impl Scenario for OscScenario {
                             );
                             *left -= 1;
                             if *left == 0 {
-                                twin = None;
+                                stale = twin.take().map(|(t, _)| t);
                             }
                         }
                         if let Some(p) = &ctl_pulls {
